@@ -210,6 +210,12 @@ func cmdCheck(args []string) int {
 		return 2
 	}
 	eng.openKF = openKF
+	if tier == "thorough" {
+		eng.maxPaths = 20_000_000
+	}
+	if w := os.Getenv("VERIF_MAXPATHS"); w != "" {
+		fmt.Sscan(w, &eng.maxPaths)
+	}
 	if w := os.Getenv("VERIF_WORKERS"); w != "" {
 		fmt.Sscan(w, &eng.workers)
 	}
